@@ -374,7 +374,10 @@ class ModelFile:
         """Iterate over all elements in this tree by ``xsi:type``."""
         for xtype, elms in self.__xtypecache.items():
             if xtype in xtypes:
-                yield from elms.values()
+                # placeholders of fragmented elements carry the type of
+                # the element they stand for; that element is yielded
+                # from the fragment that contains it
+                yield from (e for e in elms.values() if "href" not in e.attrib)
 
     def write_xml(
         self,
